@@ -18,17 +18,17 @@ def refused {β : Type} (r : Res β) : Prop := ∃ e, r = .error e
 
 /-- (1) an axis the grid lacks -/
 theorem unknown_axis_refused (o : Ops α) (g : GridM α) (fname : String) (arr : NDArr α)
-    (ax : String) (rest : List String) (to b : KW String) (f : KW α) (h : g.axis? ax = none) :
-    refused (dispatch o Gen.gridops g fname arr (ax :: rest) to b f) := by
+    (ax : String) (rest : List String) (tgt b : KW String) (f : KW α) (h : g.axis? ax = none) :
+    refused (dispatch o Gen.gridops g fname arr (ax :: rest) tgt b f) := by
   unfold dispatch
   simp only [List.mapM_cons, signatureFor, h, bind, Except.bind, throw, throwThe, MonadExceptOf.throw]
   exact ⟨_, rfl⟩
 
 /-- (2) data lacking, or having two, dimensions of the axis -/
 theorem bad_dims_refused (o : Ops α) (g : GridM α) (fname : String) (arr : NDArr α)
-    (ax : String) (rest : List String) (to b : KW String) (f : KW α) (a : AxisM α)
+    (ax : String) (rest : List String) (tgt b : KW String) (f : KW α) (a : AxisM α)
     (ha : g.axis? ax = some a) (e : Err) (hp : a.positionName arr.dims = .error e) :
-    refused (dispatch o Gen.gridops g fname arr (ax :: rest) to b f) := by
+    refused (dispatch o Gen.gridops g fname arr (ax :: rest) tgt b f) := by
   unfold dispatch
   simp only [List.mapM_cons, signatureFor, ha, hp, bind, Except.bind, pure, Except.pure]
   exact ⟨_, rfl⟩
